@@ -36,8 +36,8 @@ def snap(obj):
         return ("S", obj.to_numpy().copy() if obj.dtype != object else [snap(v) for v in obj], list(obj.index), str(obj.dtype))
     if isinstance(obj, pd.DataFrame):
         cols = []
-        for c in obj.columns:
-            col = obj[c]
+        for j, c in enumerate(obj.columns):
+            col = obj.iloc[:, j]  # by position: column names may repeat
             cols.append((str(c), [snap(v) if isinstance(v, (pd.Series, np.ndarray)) else v for v in col.tolist()] if col.dtype == object else col.to_numpy().copy(), str(col.dtype)))
         return ("F", cols, list(obj.index))
     if isinstance(obj, np.ndarray):
@@ -106,6 +106,8 @@ def subject(case):
             for i in case["marks"]:
                 vals[2 + i % (n - 4)] += 900.0
         if spec["kind"] == "imputer":
+            if case.get("int_valued"):
+                vals = np.round(vals)  # integer-valued observations (counts)
             for i in case["marks"]:
                 vals[2 + i % (n - 4)] = np.nan
         z = gen.build_series(vals, case["start"], case["index_kind"])
@@ -261,6 +263,7 @@ def cases(draw, reproducible=False):
          "index_kind": draw(gen.index_kind), "seed": draw(st.integers(0, 10 ** 6)), "rs": draw(st.integers(0, 500)),
          "order": draw(st.lists(st.integers(0, 5), min_size=2, max_size=6)),
          "marks": draw(st.lists(st.integers(0, 30), min_size=1, max_size=4)), "as_frame": draw(st.booleans()),
+         "int_valued": draw(st.booleans()),
          "container": draw(st.sampled_from(["nested", "nested_array", "numpy3d"])),
          "n_jobs": draw(st.sampled_from([None, 1, 2, 4]))}
     if fam == "forecaster":
